@@ -723,6 +723,8 @@ def check_history(inp) -> list:
                 orders, compact = op[1], op[2]
                 if cur is None or any(o not in s.basis_set for o in orders):
                     continue
+                if any(s.basis_set[o].basis_set.shape[1] == 0 for o in orders):
+                    continue        # empty basis: outside the property's domain
                 snap = {o: (b.basis_set.copy(), b.compact_compression_matrix.toarray().copy())
                         for o, b in s.basis_set.items() if o in orders}
                 d0, f0 = datasets[cur][0].copy(), datasets[cur][1].copy()
